@@ -52,10 +52,23 @@ def rule_a(F):
         n += 1
         op = short(r["impl_trait"]).rsplit("::", 1)[-1]
         asserts = []
-        for b in f.blocks:
-            t = b["term"]
-            if t["k"] == "assert" and t["msg"] in ("Overflow", "OverflowNeg", "DivisionByZero", "RemainderByZero"):
-                asserts.append((t["msg"], t.get("ln"), t["msg_ops"][-1] if t["msg_ops"] else ""))
+        # the operator's own body, the closures it builds (an operation handed to a shared helper as a closure is a separate
+        # MIR body) and the private functions of value.rs it reaches
+        reach = F.callgraph.reach(f.short, stop=lambda nm: nm != f.short and not (nm.startswith("value::") or nm.startswith("<value::")))
+        bodies = [f]
+        for g in F.fns:
+            if g is f or not g.mir:
+                continue
+            root = short(g.raw.get("root") or "")
+            if (g.is_closure and (root == f.short or root in reach)) or (not g.is_closure and g.short in reach and
+                                                                         (g.short.startswith("value::") or g.short.startswith("<value::"))
+                                                                         and not g.raw.get("impl_trait")):
+                bodies.append(g)
+        for g in bodies:
+            for b in g.blocks:
+                t = b["term"]
+                if t["k"] == "assert" and t["msg"] in ("Overflow", "OverflowNeg", "DivisionByZero", "RemainderByZero"):
+                    asserts.append((t["msg"], t.get("ln"), t["msg_ops"][-1] if t["msg_ops"] else ""))
         key = "C04/A/Value::%s" % op.lower()
         if asserts:
             a = asserts[0]
@@ -404,7 +417,8 @@ def rule_s(F):
         if not f.mir:
             continue
         root = f.root or f.short
-        if not (root.startswith("vm::instr_execution::") or root in ("vm::Vm::_run", "vm::Vm::binary_op", "vm::Vm::run", "vm::Vm::run_function")):
+        # every function of the interpreter (vm.rs and vm/instr_execution.rs), whatever the handlers are called
+        if not (root.startswith("vm::instr_execution::") or root.startswith("vm::Vm::") or (root.startswith("vm::") and root.count("::") == 1)):
             continue
         from cao.facts import DefUse
         for bi, t in mu.calls(f):
